@@ -295,12 +295,12 @@ class StreamGen:
         body = rng.choice([core, T.neg(core), T.neg(T.neg(core)), T.imp(core, T.svar(X)), T.imp(T.svar(X), core), T.app(T.svar(X), core), T.imp(T.neg(core), T.svar(Y))])
         self.put_pattern(body)
         self.put(bytes([OP['Mu'], X]))
-        if self.dead:
-            return
+        # the follow-up is emitted even if the reference machine has just refused the mu: a checker that
+        # wrongly accepts it must be led on to build a theorem from it
         r = rng.random()
-        if r < 0.4:
+        if r < 0.3:
             self.put(bytes([OP['Pop']]))
-        elif r < 0.8:
+        elif r < 0.85:
             # make the freshly accepted mu pattern part of a theorem: prop1[phi0 := mu X. body]
             self.put(bytes([OP['Prop1'], OP['Instantiate'], 1, 0]))
 
